@@ -278,6 +278,259 @@ func runC20(c *Ctx) {
 
 	// ---------------- R2 paging loops ----------------
 	nloops := 0
+	// pagingLoop checks one loop L (of a function whose loops are `loops`) around `call`, which fetches one page:
+	// tokenArg is what the call is given as the page token, respVal recognises the page it returns and nextTok the
+	// next-page token of that page. The call is a List request of the KMS client, or — in a paging driver — the call of
+	// the function parameter that makes that request.
+	pagingLoop := func(loops []*loop, L *loop, call *ssa.Call, name string, tokenArg ssa.Value, respVal, nextTok func(ssa.Value) bool, accumulates bool) {
+		// carried token: header φ of string type flowing into the request's PageToken
+		var tokPhi *ssa.Phi
+		for _, hi := range L.Header.Instrs {
+			phi, ok := hi.(*ssa.Phi)
+			if !ok {
+				break
+			}
+			if phi.Type().String() != "string" {
+				continue
+			}
+			if tokenArg != nil && sl.Derives(tokenArg, func(v ssa.Value) bool { return v == phi }) {
+				tokPhi = phi
+			}
+		}
+		if tokPhi == nil {
+			c.S.Bad("R2", name+":token", c.pos(call.Pos()), "the request's page token is not loop-carried: every iteration lists the same page")
+			return
+		}
+		okCarry := true
+		for i, pred := range L.Header.Preds {
+			if L.Body[pred] && !nextTok(tokPhi.Edges[i]) {
+				okCarry = false
+			}
+		}
+		c.S.Check(okCarry, "R2", name+":token", c.pos(tokPhi.Pos()), "carried token is this iteration's GetNextPageToken()", "the token carried into the next iteration is not this response's next_page_token")
+		tokCond := func(want bool) func(cf condFact) bool {
+			// want=true: token known non-empty; false: known empty
+			return func(cf condFact) bool {
+				bo, ok := cf.Cond.(*ssa.BinOp)
+				if !ok || (bo.Op != token.EQL && bo.Op != token.NEQ) {
+					return false
+				}
+				var other ssa.Value
+				if isEmptyStr(bo.Y) {
+					other = bo.X
+				} else if isEmptyStr(bo.X) {
+					other = bo.Y
+				}
+				if other == nil || !nextTok(other) {
+					return false
+				}
+				nonEmpty := (bo.Op == token.NEQ) == cf.Val
+				return nonEmpty == want
+			}
+		}
+		hasCond := func(b *ssa.BasicBlock, p func(condFact) bool) bool {
+			for _, cf := range dominatingConds(b) {
+				if L.Body[cf.Block] && p(cf) {
+					return true
+				}
+			}
+			return false
+		}
+		// continuation flag: `for tok, more := "", true; more; more = tok != ""` — the header tests a boolean
+		// φ whose value on every back edge is the non-empty test of this iteration's next page token (and
+		// the constant true on entry): going round ⇔ token non-empty, leaving at the header ⇔ token empty
+		var flagPhi *ssa.Phi
+		if iff, ok := L.Header.Instrs[len(L.Header.Instrs)-1].(*ssa.If); ok {
+			if phi, ok := iff.Cond.(*ssa.Phi); ok && phi.Block() == L.Header && len(L.Header.Succs) == 2 && L.Body[L.Header.Succs[0]] != L.Body[L.Header.Succs[1]] {
+				// "more" flag: the loop goes on while it is true; "last" flag (`for !last`): while it is false
+				more := L.Body[L.Header.Succs[0]]
+				good := true
+				for i, e := range phi.Edges {
+					pred := L.Header.Preds[i]
+					if L.Body[pred] {
+						bo, isB := e.(*ssa.BinOp)
+						if !isB || !tokCond(more)(condFact{Cond: bo, Val: true, Block: pred}) {
+							good = false
+						}
+					} else if k, isK := e.(*ssa.Const); !isK || k.Value == nil || k.Value.Kind() != constant.Bool || constant.BoolVal(k.Value) != more {
+						good = false
+					}
+				}
+				if good {
+					flagPhi = phi
+				}
+			}
+		}
+		okBack := true
+		for _, back := range L.Backs {
+			edge := flagPhi != nil
+			if iff, ok := back.Instrs[len(back.Instrs)-1].(*ssa.If); ok {
+				// the back edge itself may be an edge of the token test
+				for i, s := range back.Succs {
+					if s == L.Header && tokCond(true)(normalizeCond(iff.Cond, i == 0, back)) {
+						edge = true
+					}
+				}
+			}
+			if !edge && !hasCond(back, tokCond(true)) {
+				okBack = false
+			}
+		}
+		c.S.Check(okBack, "R2", name+":back edge", c.pos(L.Header.Instrs[0].Pos()), "goes round only with a non-empty next page token", "the loop goes round without having checked that the next page token is non-empty (an empty token restarts the listing from the first page: non-termination when the last page is full)")
+		// exits
+		okExit := true
+		why := ""
+		for _, ed := range L.exitEdges() {
+			from, to := ed[0], ed[1]
+			inner := innermostLoopOf(loops, from)
+			if inner != nil && inner != L && len(inner.Body) < len(L.Body) {
+				continue // early return from the inner item loop
+			}
+			if isErrorExit(to) || isFoundExit(to) {
+				continue
+			}
+			if flagPhi != nil && from == L.Header {
+				continue // the continuation flag is false exactly when the token was empty
+			}
+			// the edge itself may be the empty-token edge: from ends in If on the token
+			edgeOK := hasCond(to, tokCond(false)) && len(to.Preds) == 1
+			if !edgeOK {
+				if iff, ok := from.Instrs[len(from.Instrs)-1].(*ssa.If); ok {
+					for i, s := range from.Succs {
+						if s == to && tokCond(false)(normalizeCond(iff.Cond, i == 0, from)) {
+							edgeOK = true
+						}
+					}
+				}
+			}
+			if !edgeOK && hasCond(from, tokCond(false)) {
+				edgeOK = true
+			}
+			if !edgeOK {
+				okExit = false
+				why = "exit at " + c.pos(lastPos(from))
+			}
+		}
+		// loop-carried selections (pointer-typed header φ other than the token) are never reset to a possibly-nil value
+		for _, hi := range L.Header.Instrs {
+			phi, ok := hi.(*ssa.Phi)
+			if !ok {
+				break
+			}
+			if _, isPtr := phi.Type().Underlying().(*types.Pointer); !isPtr {
+				continue
+			}
+			okMono := true
+			seenV := map[ssa.Value]bool{}
+			var leaf func(v ssa.Value, d int)
+			leaf = func(v ssa.Value, d int) {
+				if v == phi || seenV[v] || d > 20 {
+					return
+				}
+				seenV[v] = true
+				if p2, ok := v.(*ssa.Phi); ok {
+					for _, e := range p2.Edges {
+						leaf(e, d+1)
+					}
+					return
+				}
+				// an element of the response list, or a value known non-nil
+				if ex, ok := v.(*ssa.Extract); ok {
+					if _, isNext := ex.Tuple.(*ssa.Next); isNext {
+						return
+					}
+				}
+				if u, ok := v.(*ssa.UnOp); ok {
+					if _, isIdx := u.X.(*ssa.IndexAddr); isIdx {
+						return
+					}
+				}
+				if in, ok := v.(ssa.Instruction); ok {
+					for _, cf := range dominatingCondsOfUse(phi, v, L) {
+						if bo, ok := cf.Cond.(*ssa.BinOp); ok && isNilK(bo.Y) && bo.X == v && (bo.Op == token.NEQ) == cf.Val {
+							return
+						}
+					}
+					_ = in
+				}
+				okMono = false
+			}
+			for i, pred := range L.Header.Preds {
+				if L.Body[pred] {
+					leaf(phi.Edges[i], 0)
+				}
+			}
+			c.S.Check(okMono, "R2", name+":carried selection "+phi.Comment, c.pos(phi.Pos()), "a candidate carried across pages is only replaced by a listed element or a value known non-nil", "a candidate selected on an earlier page can be overwritten with a possibly-nil value on a later page: versions seen earlier are forgotten")
+		}
+		// values computed from this page's response may leave the loop only through an
+		// accumulator (loop-carried φ) or an early "found" return
+		okAcc := true
+		accWhy := ""
+		headerPhis := map[ssa.Value]bool{}
+		for _, hi := range L.Header.Instrs {
+			if phi, ok := hi.(*ssa.Phi); ok {
+				headerPhis[phi] = true
+			}
+		}
+		for lb := range L.Body {
+			for _, li := range lb.Instrs {
+				v, ok := li.(ssa.Value)
+				if !ok || headerPhis[v] {
+					continue
+				}
+				refs := v.Referrers()
+				if refs == nil {
+					continue
+				}
+				for _, u := range *refs {
+					ub := u.Block()
+					if ub == nil || L.Body[ub] {
+						continue
+					}
+					if _, isDbg := u.(*ssa.DebugRef); isDbg {
+						continue
+					}
+					// used after the loop
+					fromResp, viaAcc := false, false
+					lsl := flow.NewSlicer(c.P)
+					lsl.Visit(v, func(x ssa.Value) bool {
+						if headerPhis[x] && x != tokPhi {
+							viaAcc = true
+							return false
+						}
+						if respVal(x) {
+							fromResp = true
+						}
+						return true
+					}, nil)
+					if !fromResp || viaAcc {
+						continue
+					}
+					if isFoundExit(ub) || isErrorExit(ub) {
+						continue
+					}
+					// early return taken from inside the inner item loop
+					fromInner := len(ub.Preds) > 0
+					for _, pb := range ub.Preds {
+						il := innermostLoopOf(loops, pb)
+						if il == nil || il == L || len(il.Body) >= len(L.Body) {
+							fromInner = false
+						}
+					}
+					if _, isRet := ub.Instrs[len(ub.Instrs)-1].(*ssa.Return); isRet && fromInner {
+						continue
+					}
+					okAcc = false
+					accWhy = c.pos(u.Pos())
+				}
+			}
+		}
+		if !accumulates {
+			okAcc = true // a driver never sees the page: what is kept across pages is the fetcher's business
+		}
+		c.S.Check(okAcc, "R2", name+":accumulation", c.pos(L.Header.Instrs[0].Pos()), "what is used after the loop is accumulated across pages (or an early find)", "a value computed from the last page only is used after the loop (at "+accWhy+"): results of earlier pages are forgotten")
+		c.S.Check(okExit, "R2", name+":exit", c.pos(L.Header.Instrs[0].Pos()), "leaves only on an empty next page token (or an error / an early find)", "the listing loop can stop while the service still has pages ("+why+"): versions beyond a short page are never seen")
+	}
 	for _, f := range c.P.RepoFunctions() {
 		if load.RelPkg(f) != "keys/gcpkms" || c.isTestFunc(f) {
 			continue
@@ -291,11 +544,6 @@ func runC20(c *Ctx) {
 				}
 				L := innermostLoopOf(loops, b)
 				name := load.FuncName(f) + ":" + call.Call.Method.Name()
-				if L == nil {
-					c.S.Bad("R2", name+":loop", c.pos(call.Pos()), "paged listing call is not in a loop: only the first page is processed")
-					continue
-				}
-				nloops++
 				respVal := func(v ssa.Value) bool {
 					ex, ok := v.(*ssa.Extract)
 					return ok && ex.Tuple == call && ex.Index == 0
@@ -308,248 +556,28 @@ func runC20(c *Ctx) {
 					cal := cv.Call.StaticCallee()
 					return cal != nil && cal.Name() == "GetNextPageToken" && len(cv.Call.Args) == 1 && respVal(cv.Call.Args[0])
 				}
-				// carried token: header φ of string type flowing into the request's PageToken
-				var tokPhi *ssa.Phi
-				for _, hi := range L.Header.Instrs {
-					phi, ok := hi.(*ssa.Phi)
-					if !ok {
-						break
-					}
-					if phi.Type().String() != "string" {
-						continue
-					}
-					if len(call.Call.Args) >= 2 && sl.Derives(call.Call.Args[1], func(v ssa.Value) bool { return v == phi }) {
-						tokPhi = phi
-					}
+				var tokenArg ssa.Value
+				if len(call.Call.Args) >= 2 {
+					tokenArg = call.Call.Args[1]
 				}
-				if tokPhi == nil {
-					c.S.Bad("R2", name+":token", c.pos(call.Pos()), "the request's page token is not loop-carried: every iteration lists the same page")
+				if L != nil {
+					nloops++
+					pagingLoop(loops, L, call, name, tokenArg, respVal, nextTok, true)
 					continue
 				}
-				okCarry := true
-				for i, pred := range L.Header.Preds {
-					if L.Body[pred] && !nextTok(tokPhi.Edges[i]) {
-						okCarry = false
+				// no loop here: the request may be made by a page fetcher (a function that is given the page token and
+				// returns the next one) that a paging driver calls in a loop
+				if why := c20PageFetcher(c, sl, f, call, tokenArg, nextTok, name, func(g *ssa.Function, gl []*loop, GL *loop, gc *ssa.Call) {
+					gResp := func(v ssa.Value) bool {
+						ex, ok := v.(*ssa.Extract)
+						return ok && ex.Tuple == gc && ex.Index == 0
 					}
+					pagingLoop(gl, GL, gc, name+" via "+g.Name(), gc.Call.Args[0], gResp, gResp, false)
+				}); why != "" {
+					c.S.Bad("R2", name+":loop", c.pos(call.Pos()), "paged listing call is not in a loop: only the first page is processed ("+why+")")
+					continue
 				}
-				c.S.Check(okCarry, "R2", name+":token", c.pos(tokPhi.Pos()), "carried token is this iteration's GetNextPageToken()", "the token carried into the next iteration is not this response's next_page_token")
-				tokCond := func(want bool) func(cf condFact) bool {
-					// want=true: token known non-empty; false: known empty
-					return func(cf condFact) bool {
-						bo, ok := cf.Cond.(*ssa.BinOp)
-						if !ok || (bo.Op != token.EQL && bo.Op != token.NEQ) {
-							return false
-						}
-						var other ssa.Value
-						if isEmptyStr(bo.Y) {
-							other = bo.X
-						} else if isEmptyStr(bo.X) {
-							other = bo.Y
-						}
-						if other == nil || !nextTok(other) {
-							return false
-						}
-						nonEmpty := (bo.Op == token.NEQ) == cf.Val
-						return nonEmpty == want
-					}
-				}
-				hasCond := func(b *ssa.BasicBlock, p func(condFact) bool) bool {
-					for _, cf := range dominatingConds(b) {
-						if L.Body[cf.Block] && p(cf) {
-							return true
-						}
-					}
-					return false
-				}
-				// continuation flag: `for tok, more := "", true; more; more = tok != ""` — the header tests a boolean
-				// φ whose value on every back edge is the non-empty test of this iteration's next page token (and
-				// the constant true on entry): going round ⇔ token non-empty, leaving at the header ⇔ token empty
-				var flagPhi *ssa.Phi
-				if iff, ok := L.Header.Instrs[len(L.Header.Instrs)-1].(*ssa.If); ok {
-					if phi, ok := iff.Cond.(*ssa.Phi); ok && phi.Block() == L.Header && len(L.Header.Succs) == 2 && L.Body[L.Header.Succs[0]] {
-						good := true
-						for i, e := range phi.Edges {
-							pred := L.Header.Preds[i]
-							if L.Body[pred] {
-								bo, isB := e.(*ssa.BinOp)
-								if !isB || !tokCond(true)(condFact{Cond: bo, Val: true, Block: pred}) {
-									good = false
-								}
-							} else if k, isK := e.(*ssa.Const); !isK || k.Value == nil || k.Value.Kind() != constant.Bool || !constant.BoolVal(k.Value) {
-								good = false
-							}
-						}
-						if good {
-							flagPhi = phi
-						}
-					}
-				}
-				okBack := true
-				for _, back := range L.Backs {
-					edge := flagPhi != nil
-					if iff, ok := back.Instrs[len(back.Instrs)-1].(*ssa.If); ok {
-						// the back edge itself may be an edge of the token test
-						for i, s := range back.Succs {
-							if s == L.Header && tokCond(true)(normalizeCond(iff.Cond, i == 0, back)) {
-								edge = true
-							}
-						}
-					}
-					if !edge && !hasCond(back, tokCond(true)) {
-						okBack = false
-					}
-				}
-				c.S.Check(okBack, "R2", name+":back edge", c.pos(L.Header.Instrs[0].Pos()), "goes round only with a non-empty next page token", "the loop goes round without having checked that the next page token is non-empty (an empty token restarts the listing from the first page: non-termination when the last page is full)")
-				// exits
-				okExit := true
-				why := ""
-				for _, ed := range L.exitEdges() {
-					from, to := ed[0], ed[1]
-					inner := innermostLoopOf(loops, from)
-					if inner != nil && inner != L && len(inner.Body) < len(L.Body) {
-						continue // early return from the inner item loop
-					}
-					if isErrorExit(to) || isFoundExit(to) {
-						continue
-					}
-					if flagPhi != nil && from == L.Header {
-						continue // the continuation flag is false exactly when the token was empty
-					}
-					// the edge itself may be the empty-token edge: from ends in If on the token
-					edgeOK := hasCond(to, tokCond(false)) && len(to.Preds) == 1
-					if !edgeOK {
-						if iff, ok := from.Instrs[len(from.Instrs)-1].(*ssa.If); ok {
-							for i, s := range from.Succs {
-								if s == to && tokCond(false)(normalizeCond(iff.Cond, i == 0, from)) {
-									edgeOK = true
-								}
-							}
-						}
-					}
-					if !edgeOK && hasCond(from, tokCond(false)) {
-						edgeOK = true
-					}
-					if !edgeOK {
-						okExit = false
-						why = "exit at " + c.pos(lastPos(from))
-					}
-				}
-				// loop-carried selections (pointer-typed header φ other than the token) are never reset to a possibly-nil value
-				for _, hi := range L.Header.Instrs {
-					phi, ok := hi.(*ssa.Phi)
-					if !ok {
-						break
-					}
-					if _, isPtr := phi.Type().Underlying().(*types.Pointer); !isPtr {
-						continue
-					}
-					okMono := true
-					seenV := map[ssa.Value]bool{}
-					var leaf func(v ssa.Value, d int)
-					leaf = func(v ssa.Value, d int) {
-						if v == phi || seenV[v] || d > 20 {
-							return
-						}
-						seenV[v] = true
-						if p2, ok := v.(*ssa.Phi); ok {
-							for _, e := range p2.Edges {
-								leaf(e, d+1)
-							}
-							return
-						}
-						// an element of the response list, or a value known non-nil
-						if ex, ok := v.(*ssa.Extract); ok {
-							if _, isNext := ex.Tuple.(*ssa.Next); isNext {
-								return
-							}
-						}
-						if u, ok := v.(*ssa.UnOp); ok {
-							if _, isIdx := u.X.(*ssa.IndexAddr); isIdx {
-								return
-							}
-						}
-						if in, ok := v.(ssa.Instruction); ok {
-							for _, cf := range dominatingCondsOfUse(phi, v, L) {
-								if bo, ok := cf.Cond.(*ssa.BinOp); ok && isNilK(bo.Y) && bo.X == v && (bo.Op == token.NEQ) == cf.Val {
-									return
-								}
-							}
-							_ = in
-						}
-						okMono = false
-					}
-					for i, pred := range L.Header.Preds {
-						if L.Body[pred] {
-							leaf(phi.Edges[i], 0)
-						}
-					}
-					c.S.Check(okMono, "R2", name+":carried selection "+phi.Comment, c.pos(phi.Pos()), "a candidate carried across pages is only replaced by a listed element or a value known non-nil", "a candidate selected on an earlier page can be overwritten with a possibly-nil value on a later page: versions seen earlier are forgotten")
-				}
-				// values computed from this page's response may leave the loop only through an
-				// accumulator (loop-carried φ) or an early "found" return
-				okAcc := true
-				accWhy := ""
-				headerPhis := map[ssa.Value]bool{}
-				for _, hi := range L.Header.Instrs {
-					if phi, ok := hi.(*ssa.Phi); ok {
-						headerPhis[phi] = true
-					}
-				}
-				for lb := range L.Body {
-					for _, li := range lb.Instrs {
-						v, ok := li.(ssa.Value)
-						if !ok || headerPhis[v] {
-							continue
-						}
-						refs := v.Referrers()
-						if refs == nil {
-							continue
-						}
-						for _, u := range *refs {
-							ub := u.Block()
-							if ub == nil || L.Body[ub] {
-								continue
-							}
-							if _, isDbg := u.(*ssa.DebugRef); isDbg {
-								continue
-							}
-							// used after the loop
-							fromResp, viaAcc := false, false
-							lsl := flow.NewSlicer(c.P)
-							lsl.Visit(v, func(x ssa.Value) bool {
-								if headerPhis[x] && x != tokPhi {
-									viaAcc = true
-									return false
-								}
-								if respVal(x) {
-									fromResp = true
-								}
-								return true
-							}, nil)
-							if !fromResp || viaAcc {
-								continue
-							}
-							if isFoundExit(ub) || isErrorExit(ub) {
-								continue
-							}
-							// early return taken from inside the inner item loop
-							fromInner := len(ub.Preds) > 0
-							for _, pb := range ub.Preds {
-								il := innermostLoopOf(loops, pb)
-								if il == nil || il == L || len(il.Body) >= len(L.Body) {
-									fromInner = false
-								}
-							}
-							if _, isRet := ub.Instrs[len(ub.Instrs)-1].(*ssa.Return); isRet && fromInner {
-								continue
-							}
-							okAcc = false
-							accWhy = c.pos(u.Pos())
-						}
-					}
-				}
-				c.S.Check(okAcc, "R2", name+":accumulation", c.pos(L.Header.Instrs[0].Pos()), "what is used after the loop is accumulated across pages (or an early find)", "a value computed from the last page only is used after the loop (at "+accWhy+"): results of earlier pages are forgotten")
-				c.S.Check(okExit, "R2", name+":exit", c.pos(L.Header.Instrs[0].Pos()), "leaves only on an empty next page token (or an error / an early find)", "the listing loop can stop while the service still has pages ("+why+"): versions beyond a short page are never seen")
+				nloops++
 			}
 		}
 	}
@@ -908,14 +936,19 @@ func runC20(c *Ctx) {
 					return len(callsIn(cal, func(c2 ssa.CallInstruction) bool { return isKMSClientCall(c2, "DestroyCryptoKeyVersion") })) > 0
 				}
 				for _, d := range callsIn(g, destroys) {
-					if L == nil || !L.Body[d.Block()] {
+					// the verdict is asked per version: inside the version loop, or in a helper that handles one
+					// version (then the whole helper is the scope)
+					if L != nil && !L.Body[d.Block()] {
+						continue
+					}
+					if L == nil && !tcall.Block().Dominates(d.Block()) {
 						continue
 					}
 					nd++
 					ok := true
 					gated := false
 					for _, cf := range dominatingConds(d.Block()) {
-						if !L.Body[cf.Block] || cf.Block == L.Header {
+						if L != nil && (!L.Body[cf.Block] || cf.Block == L.Header) {
 							continue
 						}
 						if ex, isEx := cf.Cond.(*ssa.Extract); isEx && ex.Tuple == tcall.Value() && ex.Index == 0 {
@@ -925,6 +958,12 @@ func runC20(c *Ctx) {
 								ok = false
 							}
 							continue
+						}
+						// the verdict's own error found nil: an unknown state has no verdict to act on
+						if bo, isB := cf.Cond.(*ssa.BinOp); isB && isNilK(bo.Y) {
+							if ex, isEx := bo.X.(*ssa.Extract); isEx && ex.Tuple == tcall.Value() && ex.Index == 1 && (bo.Op == token.EQL) == cf.Val {
+								continue
+							}
 						}
 						ok = false
 					}
@@ -1122,4 +1161,106 @@ func dominatingCondsOfUse(h *ssa.Phi, v ssa.Value, L *loop) []condFact {
 		}
 	}
 	return out
+}
+
+// c20PageFetcher: the List request `call` in f is not in a loop of f. It is accepted when f is a page fetcher — its
+// string parameter is the request's page token and every non-error return hands back this response's next-page token
+// as the first result — and every place f is used hands it to a paging driver: a function that calls its
+// function-typed parameter in a loop. Each such driver loop is handed to check. Returns why not ("" = accepted).
+func c20PageFetcher(c *Ctx, sl *flow.Slicer, f *ssa.Function, call *ssa.Call, tokenArg ssa.Value, nextTok func(ssa.Value) bool, name string, check func(g *ssa.Function, gl []*loop, GL *loop, gc *ssa.Call)) string {
+	if tokenArg == nil {
+		return "the request carries no page token"
+	}
+	var tokParam *ssa.Parameter
+	for _, p := range f.Params {
+		if p.Type().String() == "string" && sl.Derives(tokenArg, func(v ssa.Value) bool { return v == ssa.Value(p) }) {
+			tokParam = p
+		}
+	}
+	if tokParam == nil {
+		return "no parameter of the enclosing function is the request's page token"
+	}
+	ei := errIndex(f.Signature)
+	if ei < 1 || f.Signature.Results().At(0).Type().String() != "string" {
+		return "the enclosing function does not return (next token, error)"
+	}
+	for _, b := range f.Blocks {
+		ret, ok := b.Instrs[len(b.Instrs)-1].(*ssa.Return)
+		if !ok {
+			continue
+		}
+		if !isNilK(ret.Results[ei]) {
+			continue // error return
+		}
+		if !nextTok(ret.Results[0]) {
+			return "a successful return of the fetcher does not hand back this response's next page token"
+		}
+	}
+	// uses of f: MakeClosure / function value passed to a driver
+	drivers := 0
+	var users []ssa.Value
+	if f.Parent() != nil {
+		for _, b := range f.Parent().Blocks {
+			for _, in := range b.Instrs {
+				if mc, ok := in.(*ssa.MakeClosure); ok && mc.Fn == ssa.Value(f) {
+					users = append(users, mc)
+				}
+			}
+		}
+	} else {
+		users = append(users, f)
+	}
+	for _, u := range users {
+		refs := u.Referrers()
+		if refs == nil {
+			continue
+		}
+		for _, r := range *refs {
+			dc, ok := r.(*ssa.Call)
+			if !ok {
+				if _, dbg := r.(*ssa.DebugRef); dbg {
+					continue
+				}
+				return "the fetcher is used other than as an argument of a paging driver"
+			}
+			g := dc.Call.StaticCallee()
+			if g == nil || !load.FuncInRepo(g) || g.Blocks == nil {
+				return "the fetcher is handed to a function that is not in the repository"
+			}
+			idx := -1
+			for i, a := range dc.Call.Args {
+				if a == u {
+					idx = i
+				}
+			}
+			if idx < 0 || idx >= len(g.Params) {
+				return "the fetcher is not an argument of the call that uses it"
+			}
+			q := g.Params[idx]
+			gl := naturalLoops(g)
+			found := false
+			for _, gb := range g.Blocks {
+				for _, gi := range gb.Instrs {
+					gc, ok := gi.(*ssa.Call)
+					if !ok || gc.Call.IsInvoke() || gc.Call.Value != ssa.Value(q) || len(gc.Call.Args) < 1 {
+						continue
+					}
+					GL := innermostLoopOf(gl, gb)
+					if GL == nil {
+						return "the driver " + g.Name() + " calls the fetcher outside a loop"
+					}
+					found = true
+					check(g, gl, GL, gc)
+				}
+			}
+			if !found {
+				return "the driver " + g.Name() + " never calls the fetcher"
+			}
+			drivers++
+		}
+	}
+	if drivers == 0 {
+		return "the fetcher is never handed to a paging driver"
+	}
+	return ""
 }
